@@ -3,6 +3,7 @@ import NxProofs.NexCommon
 import NxProofs.NexErrors
 import NxProofs.NexDateTime
 import NxProofs.NexStationURL
+import NxProofs.NexObjWalk
 /-!
 # C15 — NEX value encodings are lossless
 
@@ -207,6 +208,77 @@ example : parse (some "prudp:/address=1.2.3.4;port=1223".toList) =
     .ok ⟨"prudp".toList, [("address".toList, .s "1.2.3.4".toList), ("port".toList, .s "1223".toList)]⟩ := by decide
 open StationURL in
 example : getitem ⟨"prudp".toList, [("port".toList, .s "1223".toList)]⟩ "port".toList = .ok (.i 1223) := by decide
+
+/-! ## state carried on ONE object across a sequence of operations
+
+Several values through one `StreamOut`/`StreamIn`, and a `StationURL` that is serialised, edited through its
+mutators (`url[k] = v`, `.params`, `.urlscheme`, `copy()`, re-parse) and serialised again. The model object has
+no state besides its logical content; the real object is tied to `ObjWalk.run` by the `url.walk` / `seq.w` /
+`seq.r` correspondence lines and by the "equals a freshly built object" oracle of `harness/nexval_walk.py`. -/
+
+open ObjWalk in
+/-- values written one after the other to one stream are read back one after the other, each equal, and the
+reader stops exactly at the end of the last one -/
+theorem stream_sequence_roundtrip (pidSize : Nat) (items : List (Ty × Val))
+    (helem : ∀ e ∈ items, ∀ b rest, wVal pidSize e.1 e.2 = .ok b → rVal pidSize e.1 (b ++ rest) = .ok (e.2, rest))
+    {b : Bytes} (h : wSeq pidSize items = .ok b) (rest : Bytes) :
+    rSeq pidSize (items.map (·.1)) (b ++ rest) = .ok (items.map (·.2), rest) :=
+  rSeq_wSeq pidSize items helem b rest h
+
+open ObjWalk in
+/-- what a stream holds after `xs` then `ys` is what a fresh stream holds after `xs` followed by what a fresh
+stream holds after `ys`: earlier writes leave nothing behind that changes later ones -/
+theorem stream_sequence_concat (pidSize : Nat) (xs ys : List (Ty × Val)) {a b : Bytes}
+    (ha : wSeq pidSize xs = .ok a) (hb : wSeq pidSize ys = .ok b) : wSeq pidSize (xs ++ ys) = .ok (a ++ b) :=
+  wSeq_append pidSize xs ys ha hb
+
+open ObjWalk in
+example : wSeq 4 [(.pid, .nat 7), (.string, .str (some "é")), (.variant, .variant (.int (-1)))] =
+    .ok [7, 0, 0, 0, 3, 0, 0xC3, 0xA9, 0, 1, 255, 255, 255, 255, 255, 255, 255, 255] := by decide
+
+open ObjWalk StationURL in
+/-- every observation made during a walk is the observation a fresh object with the logical content reached
+so far would give (no cached text, no stale typed value) -/
+theorem stationurl_walk_observations (u : URL) (ops : List UOp) (i : Nat) (h : i < ops.length) :
+    (run u ops).1[i]? = some (observe (content u (ops.take i)) ops[i]) := run_obs u ops i h
+
+open ObjWalk StationURL in
+theorem stationurl_walk_final (u : URL) (ops : List UOp) : (run u ops).2 = content u ops := run_final u ops
+
+open ObjWalk StationURL in
+/-- after ANY sequence of clean operations on one URL object its text form parses back to its parameters -/
+theorem stationurl_walk_roundtrip (u : URL) (h : WF u) (ops : List UOp) (hops : ∀ op ∈ ops, OpClean op) :
+    parse (some (repr (run u ops).2)) = .ok (strVals (run u ops).2) := by
+  rw [run_final]; exact parse_repr _ (WF_content u h ops hops)
+
+open ObjWalk StationURL in
+/-- … and so does its stream form, with exact consumption -/
+theorem stationurl_walk_stream_roundtrip (u : URL) (h : WF u) (ops : List UOp) (hops : ∀ op ∈ ops, OpClean op)
+    {b : Bytes} (hw : wStationURL (run u ops).2 = .ok b) (rest : Bytes) :
+    rStationURL (b ++ rest) = .ok (strVals (run u ops).2, rest) :=
+  rStationURL_wStationURL _ (by rw [run_final]; exact WF_content u h ops hops) hw rest
+
+open ObjWalk StationURL in
+/-- typed access sees an integer stored with `url[k] = n`, whatever was stored or serialised before -/
+theorem stationurl_set_get_int (u : URL) (k : Str) (n : Int) (hs : k ∉ strParams) (hi : k ∈ intParams) :
+    getitem (setitem u k (.i n)) k = .ok (.i n) := getitem_setitem_int u k n hs hi
+
+open ObjWalk StationURL in
+theorem stationurl_set_get_str (u : URL) (k : Str) (v : PVal) (hs : k ∈ strParams) :
+    getitem (setitem u k v) k = .ok (.s v.render) := getitem_setitem_str u k v hs
+
+open ObjWalk StationURL in
+/-- … and `url[k] = v` changes typed access to no other parameter -/
+theorem stationurl_set_get_other (u : URL) (k f : Str) (v : PVal) (hne : f ≠ k) :
+    getitem (setitem u k v) f = getitem u f := getitem_setitem_other u k f v hne
+
+open ObjWalk StationURL in
+example : (run ⟨"prudp".toList, [("port".toList, .i 1)]⟩ [.str, .set "port".toList (.i 2), .str, .get "port".toList]).1 =
+    [.text "prudp:/port=1".toList, .done, .text "prudp:/port=2".toList, .pval (.i 2)] := by decide
+open ObjWalk StationURL in
+example : OpClean (.set "port".toList (.i 2)) := ⟨by decide, by decide, by decide, by decide⟩
+open ObjWalk StationURL in
+example : "port".toList ∉ strParams ∧ "port".toList ∈ intParams ∧ "address".toList ∈ strParams := by decide
 
 /-! ## Result: the error bit, and the code ↔ name table -/
 
